@@ -5,12 +5,14 @@ import RV.C19.Lemmas
 -/
 namespace RV.C19
 
+variable {α : Type}
+
 /-- `" t1 t2 … tn"`: every member text preceded by one space -/
-def n3Body (tok : Term → List Char) : List Term → List Char
+def n3Body (tok : α → List Char) : List α → List Char
   | [] => []
   | x :: xs => ' ' :: (tok x ++ n3Body tok xs)
 
-theorem joinSp_cons (tok : Term → List Char) (x : Term) (xs : List Term) :
+theorem joinSp_cons (tok : α → List Char) (x : α) (xs : List α) :
     ' ' :: joinSp ((x :: xs).map tok) = n3Body tok (x :: xs) := by
   induction xs generalizing x with
   | nil => simp [joinSp, n3Body]
@@ -20,7 +22,7 @@ theorem joinSp_cons (tok : Term → List Char) (x : Term) (xs : List Term) :
     rw [this]
 
 /-- the text of `n3()`: `"(  )"` for the empty list, `"(" ++ " t1 … tn" ++ " )"` otherwise -/
-theorem n3Text_eq (tok : Term → List Char) (xs : List Term) :
+theorem n3Text_eq (tok : α → List Char) (xs : List α) :
     n3Text tok xs = '(' :: (if xs = [] then [' '] else []) ++ (n3Body tok xs ++ [' ', ')']) := by
   cases xs with
   | nil => simp [n3Text, joinSp, n3Body]
@@ -30,61 +32,46 @@ theorem n3Text_eq (tok : Term → List Char) (xs : List Term) :
     rw [← this]
     simp
 
-/-- A reader of the inside of an N3 list `( … )`: skips blanks, stops at the closing parenthesis, and
-    otherwise lets the term-level lexer `lex` take one term off the front.  Fuel = characters left. -/
-def readItems (lex : List Char → Option (Term × List Char)) : Nat → List Char → Option (List Term)
-  | 0, _ => none
-  | f + 1, cs =>
-    if cs = [')'] then some []
-    else if cs.head? = some ' ' then readItems lex f cs.tail
-    else
-      match lex cs with
-      | none => none
-      | some (x, rest) =>
-        match readItems lex f rest with
-        | some xs => some (x :: xs)
-        | none => none
+/-- the term-level codec is self-delimiting in front of a blank for the terms satisfying `P`: member texts
+    are non-empty, do not start with a blank, and the lexer takes exactly the member text off the front -/
+def LexOKOn (P : α → Prop) (tok : α → List Char) (lex : List Char → Option (α × List Char)) : Prop :=
+  ∀ x, P x → tok x ≠ [] ∧ (tok x).head? ≠ some ' ' ∧ ∀ rest, lex (tok x ++ ' ' :: rest) = some (x, ' ' :: rest)
 
-def readN3 (lex : List Char → Option (Term × List Char)) : List Char → Option (List Term)
-  | '(' :: cs => readItems lex cs.length cs
-  | _ => none
+def LexOK (tok : α → List Char) (lex : List Char → Option (α × List Char)) : Prop :=
+  LexOKOn (fun _ => True) tok lex
 
-/-- the term-level codec is self-delimiting in front of a blank: member texts are non-empty, do not
-    start with a blank, and the lexer takes exactly the member text off the front -/
-def LexOK (tok : Term → List Char) (lex : List Char → Option (Term × List Char)) : Prop :=
-  ∀ x, tok x ≠ [] ∧ (tok x).head? ≠ some ' ' ∧ ∀ rest, lex (tok x ++ ' ' :: rest) = some (x, ' ' :: rest)
-
-theorem n3Body_tail_blank (tok : Term → List Char) (xs : List Term) :
+theorem n3Body_tail_blank (tok : α → List Char) (xs : List α) :
     ∃ rest, n3Body tok xs ++ [' ', ')'] = ' ' :: rest := by
   cases xs with
   | nil => exact ⟨[')'], rfl⟩
   | cons x xs => exact ⟨_, rfl⟩
 
-theorem n3Body_length (tok : Term → List Char) (hne : ∀ x, tok x ≠ []) (xs : List Term) :
+theorem n3Body_length (tok : α → List Char) (xs : List α) (hne : ∀ x ∈ xs, tok x ≠ []) :
     2 * xs.length ≤ (n3Body tok xs).length := by
   induction xs with
   | nil => simp [n3Body]
   | cons x xs ih =>
-    have : 0 < (tok x).length := List.length_pos_iff.mpr (hne x)
+    have : 0 < (tok x).length := List.length_pos_iff.mpr (hne x List.mem_cons_self)
+    have := ih (fun y hy => hne y (List.mem_cons_of_mem _ hy))
     simp only [n3Body, List.length_cons, List.length_append]
     omega
 
-theorem readItems_body {tok : Term → List Char} {lex : List Char → Option (Term × List Char)}
-    (ok : LexOK tok lex) :
-    ∀ (xs : List Term) (f : Nat), 2 * xs.length + 2 ≤ f →
+theorem readItems_body {P : α → Prop} {tok : α → List Char} {lex : List Char → Option (α × List Char)}
+    (ok : LexOKOn P tok lex) :
+    ∀ (xs : List α) (f : Nat), (∀ x ∈ xs, P x) → 2 * xs.length + 2 ≤ f →
       readItems lex f (n3Body tok xs ++ [' ', ')']) = some xs := by
   intro xs
   induction xs with
   | nil =>
-    intro f hf
+    intro f _ hf
     obtain ⟨f, rfl⟩ : ∃ f', f = f' + 2 := ⟨f - 2, by omega⟩
     simp [n3Body, readItems]
   | cons x xs ih =>
-    intro f hf
+    intro f hP hf
     obtain ⟨f, rfl⟩ : ∃ f', f = f' + 2 := ⟨f - 2, by omega⟩
-    obtain ⟨hne, hhd, hlex⟩ := ok x
+    obtain ⟨hne, hhd, hlex⟩ := ok x (hP x List.mem_cons_self)
     obtain ⟨rest, hrest⟩ := n3Body_tail_blank tok xs
-    have ih' := ih f (by simp only [List.length_cons] at hf; omega)
+    have ih' := ih f (fun y hy => hP y (List.mem_cons_of_mem _ hy)) (by simp only [List.length_cons] at hf; omega)
     have h1 : (' ' :: (tok x ++ n3Body tok xs) ++ [' ', ')']) ≠ [')'] := by simp
     have h2 : tok x ++ (n3Body tok xs ++ [' ', ')']) ≠ [')'] := by
       rw [hrest]
@@ -106,17 +93,21 @@ theorem readItems_body {tok : Term → List Char} {lex : List Char → Option (T
     simp only [ih']
 
 /-- the reader recovers the list from the text `n3()` writes -/
-theorem readN3_n3Text {tok : Term → List Char} {lex : List Char → Option (Term × List Char)}
-    (ok : LexOK tok lex) (xs : List Term) : readN3 lex (n3Text tok xs) = some xs := by
+theorem readN3_n3Text_on {P : α → Prop} {tok : α → List Char} {lex : List Char → Option (α × List Char)}
+    (ok : LexOKOn P tok lex) (xs : List α) (hP : ∀ x ∈ xs, P x) : readN3 lex (n3Text tok xs) = some xs := by
   rw [n3Text_eq]
-  have hlen := n3Body_length tok (fun x => (ok x).1) xs
+  have hlen := n3Body_length tok xs (fun x hx => (ok x (hP x hx)).1)
   cases xs with
   | nil => simp [readN3, n3Body, readItems]
   | cons x xs =>
     simp only [reduceCtorEq, if_false, List.cons_append, List.nil_append, readN3]
-    apply readItems_body ok
+    apply readItems_body ok _ _ hP
     simp only [List.length_append, List.length_cons, List.length_nil] at hlen ⊢
     omega
+
+theorem readN3_n3Text {tok : α → List Char} {lex : List Char → Option (α × List Char)}
+    (ok : LexOK tok lex) (xs : List α) : readN3 lex (n3Text tok xs) = some xs :=
+  readN3_n3Text_on ok xs (fun _ _ => trivial)
 
 /-! a concrete self-delimiting codec (unary), to show `LexOK` is satisfiable -/
 
@@ -133,7 +124,7 @@ def lexU : List Char → Option (Term × List Char)
   | _ => none
 
 theorem lexOK_unary : LexOK tokU lexU := by
-  intro x
+  intro x _
   refine ⟨by simp [tokU], by simp [tokU, List.replicate_succ], ?_⟩
   intro rest
   induction x with
@@ -142,5 +133,85 @@ theorem lexOK_unary : LexOK tokU lexU := by
     simp only [tokU, List.replicate_succ, List.cons_append] at ih ⊢
     rw [lexU]
     simp only [ih]
+
+/-! ### rdflib's real term syntax is self-delimiting -/
+
+theorem untilC_append (d : Char) (a r : List Char) (ha : d ∉ a) : untilC d (a ++ d :: r) = some (a, r) := by
+  induction a with
+  | nil => simp [untilC]
+  | cons c a ih =>
+    simp only [List.mem_cons, not_or] at ha
+    have hc : c ≠ d := fun e => ha.1 e.symm
+    simp only [List.cons_append, untilC, if_neg hc, ih ha.2]
+
+theorem word_append (a r : List Char) (ha : ' ' ∉ a) : word (a ++ ' ' :: r) = (a, ' ' :: r) := by
+  induction a with
+  | nil => simp [word]
+  | cons c a ih =>
+    simp only [List.mem_cons, not_or] at ha
+    have hc : c ≠ ' ' := fun e => ha.1 e.symm
+    simp only [List.cons_append, word, if_neg hc, ih ha.2]
+
+theorem unesc_esc (x r : List Char) : unesc (esc x ++ '"' :: r) = some (x, r) := by
+  induction x with
+  | nil =>
+    show unesc ('"' :: r) = _
+    rw [unesc.eq_def]
+    simp
+  | cons c x ih =>
+    by_cases h1 : c = '\\'
+    · subst h1
+      simp [esc, escC, unesc, ih]
+    · by_cases h2 : c = '"'
+      · subst h2
+        simp [esc, escC, unesc, ih]
+      · by_cases h3 : c = '\r'
+        · subst h3
+          simp [esc, escC, unesc, ih]
+        · have e : esc (c :: x) ++ '"' :: r = c :: (esc x ++ '"' :: r) := by simp [esc, escC, h1, h2, h3]
+          rw [e, unesc.eq_def]
+          simp [h1, h2, ih]
+
+/-- the terms whose `n3()` the model writes faithfully and the lexer reads back: no `>` in IRIs, no blank in
+    blank-node ids and language tags, no line feed in a lexical form (rdflib switches to `"""…"""` then),
+    not both a datatype and a language -/
+def WFR : RTerm → Prop
+  | .iri u => '>' ∉ u
+  | .bnode id => ' ' ∉ id
+  | .lit x (some d) l => '\n' ∉ x ∧ '>' ∉ d ∧ l = none
+  | .lit x none (some l) => '\n' ∉ x ∧ ' ' ∉ l
+  | .lit x none none => '\n' ∉ x
+
+theorem lexOK_real : LexOKOn WFR tokR lexR := by
+  intro t ht
+  cases t with
+  | iri u =>
+    refine ⟨by simp [tokR], by simp [tokR], fun rest => ?_⟩
+    have := untilC_append '>' u (' ' :: rest) ht
+    simp [tokR, lexR, this]
+  | bnode id =>
+    refine ⟨by simp [tokR], by simp [tokR], fun rest => ?_⟩
+    have := word_append id rest ht
+    simp [tokR, lexR, this]
+  | lit x d l =>
+    cases d with
+    | some d =>
+      obtain ⟨_, hd, hl⟩ := ht
+      subst hl
+      refine ⟨by simp [tokR], by simp [tokR], fun rest => ?_⟩
+      have h1 := unesc_esc x ('^' :: '^' :: '<' :: (d ++ '>' :: ' ' :: rest))
+      have h2 := untilC_append '>' d (' ' :: rest) hd
+      simp [tokR, lexR, h1, h2]
+    | none =>
+      cases l with
+      | some l =>
+        refine ⟨by simp [tokR], by simp [tokR], fun rest => ?_⟩
+        have h1 := unesc_esc x ('@' :: (l ++ ' ' :: rest))
+        have h2 := word_append l rest ht.2
+        simp [tokR, lexR, h1, h2]
+      | none =>
+        refine ⟨by simp [tokR], by simp [tokR], fun rest => ?_⟩
+        have h1 := unesc_esc x (' ' :: rest)
+        simp [tokR, lexR, h1]
 
 end RV.C19
